@@ -18,7 +18,7 @@ pub fn def() -> PropDef {
         streams,
         run,
         floors,
-        rule: "single-fault injection into otherwise valid messages, exhaustive in the offending value where the space is finite: all 15 bad version nibbles; all 65497 unassigned attribute types; all 65522 unknown message-type codes (in a second Message Type AVP and in a bare AVP list); all 65535 non-zero vendor ids (non-first record); all 65527 unknown error types; offset sizes beyond the input; for every kind with a minimum every shorter payload; ill-formed UTF-8 in every text field. The result must be Err([e]) with e the variant of that fault carrying exactly the offending value. Rendering: for every variant and all 65536 payload values to_string() must return a non-empty text; for AVP-related errors it must show (as a whole word) the variant name that a valid record with that attribute number actually decodes to, or the decimal number when unassigned. Distinct = distinct (fault, value); non-trivial = all.",
+        rule: "single-fault injection into otherwise valid messages, exhaustive in the offending value where the space is finite: all 15 bad version nibbles; all 65497 unassigned attribute types; all 65522 unknown message-type codes (in a second Message Type AVP and in a bare AVP list); all 65535 non-zero vendor ids (non-first record); all 65527 unknown error types; offset sizes beyond the input; for every kind with a minimum every shorter payload; ill-formed UTF-8 in every text field. The result must be Err([e]) with e the variant of that fault carrying exactly the offending value. Rendering: for every variant and all 65536 payload values to_string() must return a non-empty text; for AVP-related errors it must show (as a whole word) the variant name that a valid record with that attribute number actually decodes to, or the decimal number when unassigned. Distinct = distinct (fault, value); non-trivial = all. Boundary attribute numbers (and a sample of the others) are also rendered on a brand-new thread and must give the same text.",
     }
 }
 
